@@ -35,7 +35,9 @@ type distEnv struct {
 	n *chain.Node
 	// inflows are multiples of 20^5 (used together with gen.DistOpts.NiceShares)
 	wholeAmounts    bool
-	userSendsToMain int // accepted user transfers to the main account (expected: none)
+	tinyWhole       bool // whole amounts of a few dozen base units
+	exactBurn       bool // compare the burned total with the model block by block (C01)
+	userSendsToMain int  // accepted user transfers to the main account (expected: none)
 	faucet          chain.Key
 	bases           []chain.Key
 	vesting         chain.Key
@@ -209,6 +211,11 @@ func (e *distEnv) inflow(r *rand.Rand) (total int) {
 			// multiples of 20^5: with 5% shares nothing fractional is ever left anywhere
 			w := sdk.NewCoins()
 			for _, cn := range coins {
+				if e.tinyWhole {
+					// 20, 40, ... 100: 5% shares of them are exactly 1, 2, ... 5 base units
+					w = w.Add(sdk.NewCoin(cn.Denom, cn.Amount.ModRaw(5).AddRaw(1).MulRaw(20)))
+					continue
+				}
 				w = w.Add(sdk.NewCoin(cn.Denom, cn.Amount.ModRaw(1000).AddRaw(1).MulRaw(3_200_000)))
 			}
 			coins = w
@@ -473,6 +480,16 @@ func (e *distEnv) checkModel(c *fw.Case, obs distBlockObs, pfx string) {
 		}
 		return true
 	}
+	if e.exactBurn {
+		// supply side (C01): what has been burned so far is exactly what the configuration
+		// burns - a burn share that has reached a whole coin is burned in that block
+		real, mod := get0(e.receipts, model.BurnKey), get0(e.model.Paid, model.BurnKey)
+		if !coinsClose(real, mod, new(big.Rat)) {
+			c.ViolateD(pfx+"/burn-vs-model", e.describe(), "block %d: %s burned so far, the configuration burns %s", e.block, coinsStr(real), coinsStr(mod))
+			return
+		}
+		c.Count("exact_burn_blocks", 1)
+	}
 	// (1) cumulative assignments
 	keys := map[string]bool{}
 	for k := range e.assigned {
@@ -693,3 +710,10 @@ func coinsStr(c model.Coins) string {
 }
 
 func govAuthority() string { return appparams.GetAuthority() }
+
+func get0(m map[string]model.Coins, k string) model.Coins {
+	if m[k] == nil {
+		return model.Coins{}
+	}
+	return m[k]
+}
